@@ -17,6 +17,31 @@ theorem redump (ty : Ty) (d d' : Dat) (r : List Byte) (h : WF ty d)
   simp only [Except.ok.injEq, Prod.mk.injEq] at hl
   exact ⟨by rw [← hl.1], hl.2.symm⟩
 
+/-- **a dump determines the field**: two well-formed contents of one type with the same bytes are the same content
+    (every configuration word and every stored word can be read off the file) -/
+theorem dump_injective (ty : Ty) (d₁ d₂ : Dat) (h₁ : WF ty d₁) (h₂ : WF ty d₂) (h : dump ty d₁ = dump ty d₂) : d₁ = d₂ := by
+  have a := IO.load_dump ty d₁ [] h₁
+  have b := IO.load_dump ty d₂ [] h₂
+  rw [h, b] at a
+  simp only [Except.ok.injEq, Prod.mk.injEq, and_true] at a
+  exact a.symm
+
+/-- **several dumps in one stream**: loading twice from `dump a ++ dump b ++ rest` yields `a`, then `b`, and leaves `rest` —
+    a load consumes exactly one dump, whatever follows it -/
+theorem load_two (ty₁ ty₂ : Ty) (d₁ d₂ : Dat) (rest : List Byte) (h₁ : WF ty₁ d₁) (h₂ : WF ty₂ d₂) :
+    (load ty₁ (dump ty₁ d₁ ++ (dump ty₂ d₂ ++ rest))).bind (fun r => (load ty₂ r.2).map fun r' => (r.1, r'.1, r'.2))
+      = .ok (d₁, d₂, rest) := by
+  rw [IO.load_dump ty₁ d₁ _ h₁]
+  simp only [Except.bind]
+  rw [IO.load_dump ty₂ d₂ _ h₂]
+  rfl
+
+/-- the outcome of loading a dump does not depend on what follows it in the stream -/
+theorem load_ignores_rest (ty : Ty) (d : Dat) (r₁ r₂ : List Byte) (h : WF ty d) :
+    (load ty (dump ty d ++ r₁)).map Prod.fst = (load ty (dump ty d ++ r₂)).map Prod.fst := by
+  rw [IO.load_dump ty d r₁ h, IO.load_dump ty d r₂ h]
+  rfl
+
 /-- non-vacuity: a 2×2 row-major field of float3 under an affine layer and an interpolator, with a NaN payload,
     a negative zero and a subnormal among the stored words -/
 def exTy : Ty := .affine 4 2 (.thin (.sized T_STRIDED 2 (.array 3)))
